@@ -10,7 +10,7 @@ use serde_json::json;
 use std::collections::BTreeSet;
 
 /// (field type, `#[default(..)]` argument or "" for no attribute, reference value expression, kind)
-const EXPRS: [(&str, &str, &str, &str); 20] = [
+const EXPRS: [(&str, &str, &str, &str); 21] = [
     ("u8", "", "0u8", "none"),
     ("u8", "5", "5u8", "int-literal"),
     ("String", "\"abc\"", "String::from(\"abc\")", "string-literal"),
@@ -33,9 +33,11 @@ const EXPRS: [(&str, &str, &str, &str); 20] = [
     ("Tgt", "\"three\"", "Tgt(5)", "into-only-string-literal"),
     // a parenthesised path is NOT "a path": no Into, so the ordinary unsize coercion &[u8; 3] -> &[u8] applies
     ("&'static [u8]", "(BYTES)", "&[1u8, 2, 3][..]", "parenthesised-path-needing-coercion"),
+    // no attribute on a field whose type has an INHERENT fn default() that disagrees with its Default impl
+    ("Lvl", "", "Lvl(1)", "inherent-default-fn"),
 ];
 
-const PRELUDE: &str = "pub const BYTES: &[u8; 3] = &[1, 2, 3];\npub mod p { pub const C8: u8 = 9; }\npub const C8: u8 = 9;\npub const S9: &str = \"s9\";\npub struct K;\nimpl K { pub const N: u32 = 11; }\n#[derive(Debug, PartialEq, Clone)] pub enum E { A, B }\npub fn mk(x: u8) -> u8 { x }\npub struct Src;\npub const SRC: Src = Src;\n#[derive(Debug, PartialEq)] pub struct Tgt(pub u8);\nimpl ::core::convert::Into<Tgt> for Src { fn into(self) -> Tgt { Tgt(3) } }\nimpl<'a> ::core::convert::Into<Tgt> for &'a str { fn into(self) -> Tgt { Tgt(self.len() as u8) } }\n";
+const PRELUDE: &str = "pub const BYTES: &[u8; 3] = &[1, 2, 3];\n#[derive(Debug)] pub struct Lvl(pub u8);\nimpl Lvl { pub fn default() -> Lvl { Lvl(99) } }\nimpl ::core::default::Default for Lvl { fn default() -> Self { Lvl(1) } }\npub mod p { pub const C8: u8 = 9; }\npub const C8: u8 = 9;\npub const S9: &str = \"s9\";\npub struct K;\nimpl K { pub const N: u32 = 11; }\n#[derive(Debug, PartialEq, Clone)] pub enum E { A, B }\npub fn mk(x: u8) -> u8 { x }\npub struct Src;\npub const SRC: Src = Src;\n#[derive(Debug, PartialEq)] pub struct Tgt(pub u8);\nimpl ::core::convert::Into<Tgt> for Src { fn into(self) -> Tgt { Tgt(3) } }\nimpl<'a> ::core::convert::Into<Tgt> for &'a str { fn into(self) -> Tgt { Tgt(self.len() as u8) } }\n";
 
 #[derive(Clone, Debug)]
 struct Case {
@@ -63,7 +65,7 @@ fn vshape(kind: SKind, n: usize) -> VShape {
 
 /// G1: per-field expressions on small structs / the default variant of an enum.
 fn gen_fields(ch: &mut Ch, thorough: bool) -> Option<Case> {
-    let bodies = [vshape(SKind::Tuple, 1), vshape(SKind::Named, 2), vshape(SKind::Tuple, 3)];
+    let bodies = [vshape(SKind::Tuple, 1), vshape(SKind::Named, 2), vshape(SKind::Tuple, 3), vshape(SKind::Named, 0), vshape(SKind::Tuple, 0)];
     let body = ch.of(&bodies).clone();
     let as_enum = ch.flag();
     let bmode = ch.pick(3);
@@ -95,11 +97,11 @@ fn gen_fields(ch: &mut Ch, thorough: bool) -> Option<Case> {
 
 /// G2: which variant is selected (none / one / several / single-variant rule / value on the attribute).
 fn gen_variants(ch: &mut Ch, thorough: bool) -> Option<Case> {
-    let menu = [vshape(SKind::Unit, 0), vshape(SKind::Tuple, 1), vshape(SKind::Named, 1), vshape(SKind::Tuple, 0), vshape(SKind::Named, 2)];
+    let menu = [vshape(SKind::Unit, 0), vshape(SKind::Tuple, 1), vshape(SKind::Named, 1), vshape(SKind::Tuple, 0), vshape(SKind::Named, 0), vshape(SKind::Named, 2)];
     let nv = ch.pick(if thorough { 4 } else { 3 });
     let mut variants = Vec::new();
     for _ in 0..nv {
-        variants.push(ch.of(&menu[..if thorough { 5 } else { 3 }]).clone());
+        variants.push(ch.of(&menu[..if thorough { 6 } else { 5 }]).clone());
     }
     // distinct expression per variant so that the constructed variant is identifiable
     let exprs: Vec<Vec<usize>> = variants.iter().enumerate().map(|(vi, v)| (0..v.n).map(|fi| 1 + (vi * 2 + fi) % 5).collect()).collect();
